@@ -614,6 +614,10 @@ pub const C03_POOL: &[(&str, &[&str])] = &[
     ("(class_definition body: (block (_)* @args)) @c", &["args", "c"]),
     ("(call arguments: (argument_list (_)+ @y))", &["y"]),
     ("(binary_operator left: (_) @x right: (_) @y) @c", &["x", "y", "c"]),
+    // a quantified sub-pattern with SEVERAL captures: tree-sitter lists them interleaved (k v ps k v ps ...)
+    ("(module (expression_statement (assignment left: (_) @k right: (_) @v))* @ps) @m", &["k", "v", "ps", "m"]),
+    ("(argument_list ((_) @a . (_) @b)+) @l", &["a", "b", "l"]),
+    ("(block ((expression_statement) @e . (_)? @nx)*) @blk", &["e", "nx", "blk"]),
     // patterns that match a node AND its descendants (a statement and its only child cover the same bytes)
     ("(_) @x", &["x"]),
     ("_ @x", &["x"]),
